@@ -9,6 +9,7 @@
 -/
 import PonyVerif.Gen.Quote
 import PonyVerif.Gen.SqlBuild
+import PonyVerif.Gen.ParamKey
 import PonyVerif.Py.Lemmas
 import PonyVerif.Lemmas.SqlText
 namespace PonyVerif.Props.C06
@@ -334,6 +335,64 @@ example : (likeAst (some ['5', '0', '%', '_', 'o', 'f', 'f', '!']) (some ['%']) 
     ['n', 'o', 'w', ' ', '5', '0', '%', '_', 'o', 'f', 'f', '!', ' ', 't', 'o', 'd', 'a', 'y'] []
   simp only [LikeKind.before, LikeKind.after] at this
   rw [this]; decide
+
+/-! ### one Param object per paramkey: `make_param`, composite (JSON path) parameters -/
+
+/-- **The per-statement Param cache is harmless exactly when the key determines the content**: if any two occurrences with
+    equal paramkeys carry the same content (converter / path items), every occurrence receives a Param object with its own
+    content - for every sequence of occurrences. -/
+theorem C06_make_param_cache [BEq κ] [LawfulBEq κ] (occ : List (κ × γ))
+    (hkey : ∀ a ∈ occ, ∀ b ∈ occ, a.1 = b.1 → a.2 = b.2) :
+    makeParams [] occ = occ.map (·.2) :=
+  makeParams_eq occ [] hkey (by simp)
+
+/-- Python values of the inputs of the regenerated component expression, for each kind of path item -/
+def keyCompPy : KeyComp → PyVal
+  | .pk v => .list [.int v, .none, .none]
+  | .s s => .call "str" [.int s]
+  | .i i => .int i
+  | .ellipsis => .call "Ellipsis" []
+  | .none => .none
+def itemIsParamPy : PathItem → PyVal
+  | .param _ => .bool true | _ => .bool false
+def itemIsSlicePy : PathItem → PyVal
+  | .slice => .bool true | _ => .bool false
+def itemParamkeyPy : PathItem → PyVal
+  | .param v => .list [.int v, .none, .none] | _ => .none
+def itemValuePy : PathItem → PyVal
+  | .skey s => .call "str" [.int s] | .ikey i => .int i | .ellipsis => .call "Ellipsis" [] | .slice => .call "slice" [] | .param _ => .none
+
+/-- bridge: the component expression regenerated from `build_json_path` computes the typed mirror `keyComponent` … -/
+theorem C06_bridge_json_key_component (it : PathItem) :
+    PonyVerif.Gen.jsonKeyComponent (itemIsSlicePy it) (itemIsParamPy it) (itemParamkeyPy it) (itemValuePy it) = .ok (keyCompPy (keyComponent it)) := by
+  cases it <;> rfl
+
+/-- … for every item of the very sequence the composite parameter evaluates (no `if` filter in the generator). -/
+theorem C06_bridge_json_key_flags :
+    PonyVerif.Gen.jsonKeyKeepsAllItems = true ∧ PonyVerif.Gen.jsonKeyIteratesItems = true := by
+  exact ⟨rfl, rfl⟩
+
+/-- distinct key components are distinct Python values (tuples, strings, ints, Ellipsis, None never compare equal) -/
+theorem C06_keycomp_toPy_inj (a b : KeyComp) (h : keyCompPy a = keyCompPy b) : a = b := by
+  cases a <;> cases b <;> simp_all [keyCompPy] <;> omega
+
+/-- **JSON path parameters**: in a statement with any number of JSON paths - sharing variables, differing only in constant
+    keys, or repeated - every path occurrence receives a composite parameter that evaluates exactly its own items. -/
+theorem C06_json_path_params (paths : List (List PathItem)) :
+    makeParams [] (paths.map (fun p => (pathKey p, p))) = paths := by
+  rw [C06_make_param_cache]
+  · simp [List.map_map, Function.comp_def]
+  · intro a ha b hb hab
+    simp only [List.mem_map] at ha hb
+    obtain ⟨p, _, rfl⟩ := ha
+    obtain ⟨q, _, rfl⟩ := hb
+    exact pathKey_inj p q hab
+
+/-- why the key must contain the constant items: with a key made of the parameters only, `data[v][1]` and `data[v][2]` in one
+    statement would share one object and the second placeholder would carry the first path -/
+example : makeParams [] ([[PathItem.param 0, .ikey 1], [.param 0, .ikey 2]].map
+      (fun p => (p.filter (fun it => match it with | .param _ => true | _ => false), p)))
+    = [[.param 0, .ikey 1], [.param 0, .ikey 1]] := by decide
 
 /-! ### parameters -/
 
